@@ -29,6 +29,69 @@ use of `maxfun` and `seed` in minimize().
 ASSUMPTIONS = ["max() over Individuals returns a maximal element of the direction-aware total preorder"]
 
 
+def _reduced_return(f):
+    """The value a function returns as one expression (locals substituted, if/return chains folded), or None."""
+    import copy
+
+    from ..core import _Subst
+    from ..normalize import _expr_of_block
+
+    body = [x for x in f.node.body if not (isinstance(x, ast.Expr) and isinstance(x.value, ast.Constant))]
+    e = _expr_of_block(body, ast.Constant(value=None), allow_dup=True)
+    if e is None:
+        rets = [r for r in body_walk(f.node) if isinstance(r, ast.Return) and r.value is not None]
+        if len(rets) != 1:
+            return None
+        e = _Subst(local_defs(f), 5).visit(copy.deepcopy(rets[0].value))
+    return e
+
+
+def _strip_none_guard(e):
+    """`X if c else None` / `None if c else X`  ->  (X, c or not-c text); anything else -> (e, None)"""
+    guards = []
+    while isinstance(e, ast.IfExp) and any(isinstance(a, ast.Constant) and a.value is None for a in (e.body, e.orelse)):
+        none_first = isinstance(e.body, ast.Constant) and e.body.value is None
+        guards.append(canon(e.test))
+        e = e.orelse if none_first else e.body
+    if isinstance(e, ast.BoolOp) and isinstance(e.op, ast.And) and len(e.values) == 2:
+        # `X and max(X)` idiom
+        guards.append(canon(e.values[0]))
+        e = e.values[1]
+    return e, guards
+
+
+def _iteration_structure(ctx, f, src):
+    """(iterables, filters, element) of a comprehension / generator expression, or of a private generator method made of
+    nested for / if / yield."""
+    if isinstance(src, (ast.GeneratorExp, ast.ListComp)):
+        return [canon(g.iter) for g in src.generators], [canon(c) for g in src.generators for c in g.ifs], canon(src.elt), [g.target for g in src.generators]
+    if isinstance(src, ast.Call) and isinstance(src.func, ast.Attribute) and isinstance(src.func.value, ast.Name) and src.func.value.id == f.self_name() and not src.args and f.cls is not None:
+        m = ctx.prog.lookup_method(f.cls, src.func.attr)
+        if m is not None:
+            iters, filters, elts, tgts = [], [], [], []
+
+            def walk(stmts):
+                for st in stmts:
+                    if isinstance(st, ast.For):
+                        iters.append(canon(st.iter))
+                        tgts.append(st.target)
+                        walk(st.body)
+                    elif isinstance(st, ast.If) and not st.orelse:
+                        filters.append(canon(st.test))
+                        walk(st.body)
+                    elif isinstance(st, ast.Expr) and isinstance(st.value, ast.Yield) and st.value.value is not None:
+                        elts.append(canon(st.value.value))
+                    elif isinstance(st, ast.Expr) and isinstance(st.value, ast.Constant):
+                        pass
+                    else:
+                        elts.append("?")
+
+            walk(m.node.body)
+            if len(elts) == 1 and elts[0] != "?":
+                return iters, filters, elts[0], tgts
+    return None
+
+
 def r04_1(ctx: Ctx):
     """R04.1 best accessors are recomputed from the complete history of one / of all demes; nothing caches a best."""
     obs = []
@@ -43,20 +106,29 @@ def r04_1(ctx: Ctx):
     if b is None:
         raise AnalysisError("AbstractDeme.best_individual vanished")
     sn = b.self_name()
-    v = single_return(b)
-    ok = False
-    why = f"returns `{norm(v)[:80] if v is not None else '?'}`"
-    if isinstance(v, ast.IfExp):
-        core, guard, alt = v.body, v.test, v.orelse
-        ok = canon(core) == f"max({sn}.all_individuals)" and canon(guard) == f"{sn}.all_individuals" and isinstance(alt, ast.Constant) and alt.value is None
-    elif v is not None and canon(v) == f"max({sn}.all_individuals)":
-        ok = True
-    obs.append(ctx.ob("R04.1", b, b.node, status=OK if ok else VIOLATION, detail="deme best = max over all individuals of its history" if ok else f"AbstractDeme.best_individual {why}: not the maximum over the deme's complete history", construct="deme-best"))
+    e = _reduced_return(b)
+    st, why = INCONCLUSIVE, "cannot reduce best_individual to one expression"
+    if e is not None:
+        core, guards = _strip_none_guard(e)
+        why = f"returns `{norm(e)[:80]}`"
+        if isinstance(core, ast.Call) and norm(core.func) in ("max", "min") and core.args:
+            src = canon(core.args[0])
+            if norm(core.func) == "min":
+                st, why = VIOLATION, f"takes min() of `{src}`: the worst individual in the problem's direction"
+            elif any(k.arg == "key" for k in core.keywords):
+                st, why = VIOLATION, "takes max() with a key: the direction-aware order of individuals is bypassed"
+            elif src == f"{sn}.all_individuals" and all(g in (f"{sn}.all_individuals", f"not{sn}.all_individuals", f"len({sn}.all_individuals)>0", f"len({sn}.all_individuals)==0", f"len({sn}.all_individuals)") for g in guards):
+                st = OK
+            elif src in (f"{sn}.current_population", f"{sn}._history[-1][-1]", f"{sn}.history[-1]") or src.startswith((f"{sn}.all_individuals[", f"{sn}.history[", f"{sn}._history[")) or " if " in norm(core.args[0]):
+                st, why = VIOLATION, f"takes the maximum of `{src}`: not the deme's complete history"
+    obs.append(ctx.ob("R04.1", b, b.node, status=st, detail="deme best = max over all individuals of its history" if st == OK else f"AbstractDeme.best_individual {why}: not the maximum over the deme's complete history", construct="deme-best"))
     ai = base.methods.get("all_individuals")
-    v = single_return(ai)
+    v = _reduced_return(ai)
     sn = ai.self_name()
-    ok = isinstance(v, ast.ListComp) and len(v.generators) == 2 and canon(v.generators[0].iter) == f"{sn}.history" and not v.generators[0].ifs and not v.generators[1].ifs and isinstance(v.generators[0].target, ast.Name) and canon(v.generators[1].iter) == v.generators[0].target.id and isinstance(v.generators[1].target, ast.Name) and norm(v.elt) == v.generators[1].target.id
-    obs.append(ctx.ob("R04.1", ai, ai.node, status=OK if ok else VIOLATION, detail="all_individuals = every individual of every recorded generation" if ok else f"all_individuals is `{norm(v)[:80] if v is not None else '?'}`: not the unfiltered flattening of the history", construct="all-individuals"))
+    ok = isinstance(v, ast.ListComp) and len(v.generators) == 2 and canon(v.generators[0].iter) in (f"{sn}.history", f"{sn}._history") and not v.generators[0].ifs and not v.generators[1].ifs and isinstance(v.generators[0].target, ast.Name) and canon(v.generators[1].iter) == v.generators[0].target.id and isinstance(v.generators[1].target, ast.Name) and norm(v.elt) == v.generators[1].target.id
+    ok3 = isinstance(v, ast.ListComp) and len(v.generators) == 3 and canon(v.generators[0].iter) == f"{sn}._history" and all(not g.ifs for g in v.generators) and all(isinstance(g.target, ast.Name) for g in v.generators) and canon(v.generators[1].iter) == v.generators[0].target.id and canon(v.generators[2].iter) == v.generators[1].target.id and norm(v.elt) == v.generators[2].target.id
+    filtered = isinstance(v, ast.ListComp) and (any(g.ifs for g in v.generators) or any(isinstance(g.iter, ast.Subscript) for g in v.generators))
+    obs.append(ctx.ob("R04.1", ai, ai.node, status=OK if (ok or ok3) else VIOLATION if filtered else INCONCLUSIVE, detail="all_individuals = every individual of every recorded generation" if (ok or ok3) else f"all_individuals is `{norm(v)[:80] if v is not None else '?'}`: not the unfiltered flattening of the history", construct="all-individuals"))
     # history flattening is checked by R11.4 (shared)
     from . import c11
 
@@ -65,25 +137,32 @@ def r04_1(ctx: Ctx):
             o.rule = "R04.1"
             obs.append(o)
     t = tree.methods.get("best_individual")
-    v = single_return(t)
     sn = t.self_name()
-    ok = False
-    why = f"returns `{norm(v)[:90] if v is not None else '?'}`"
-    if isinstance(v, ast.Call) and norm(v.func) == "max" and len(v.args) == 1 and isinstance(v.args[0], (ast.GeneratorExp, ast.ListComp)):
-        comp = v.args[0]
-        gens = comp.generators
-        if len(gens) == 2 and canon(gens[0].iter) in (f"{sn}._levels", f"{sn}.levels") and isinstance(gens[0].target, ast.Name) and canon(gens[1].iter) == gens[0].target.id and isinstance(gens[1].target, ast.Name):
-            d = gens[1].target.id
-            filters = [canon(c) for g in gens for c in g.ifs]
-            if canon(comp.elt) == f"{d}.best_individual" and all(fl in (f"{d}.best_individual", f"{d}.best_individualisnotNone") for fl in filters):
-                ok = True
+    e = _reduced_return(t)
+    st, why = INCONCLUSIVE, "cannot reduce DemeTree.best_individual to one expression"
+    if e is not None:
+        core, guards = _strip_none_guard(e)
+        why = f"returns `{norm(e)[:90]}`"
+        if isinstance(core, ast.Call) and norm(core.func) in ("max", "min") and len(core.args) == 1:
+            if norm(core.func) == "min":
+                st, why = VIOLATION, "takes min(): the worst individual"
             else:
-                why = f"takes `{norm(comp.elt)}` under filter {filters}"
-        elif len(gens) == 1 and canon(gens[0].iter) == f"{sn}.all_demes":
-            ok = canon(comp.elt).endswith(".best_individual") and all(canon(c).endswith(".best_individual") for c in gens[0].ifs)
-        else:
-            why = f"ranges over `{[norm(g.iter) for g in gens]}`, not over all demes of all levels"
-    obs.append(ctx.ob("R04.1", t, t.node, status=OK if ok else VIOLATION, detail="tree best = max over every deme's best on every level" if ok else f"DemeTree.best_individual {why}", construct="tree-best"))
+                it = _iteration_structure(ctx, t, core.args[0])
+                if it is not None:
+                    iters, filters, elt, tgts = it
+                    names = [x.id for tg in tgts for x in ast.walk(tg) if isinstance(x, ast.Name)]
+                    d = names[-1] if names else "?"
+                    all_levels = (len(iters) == 2 and iters[0] in (f"{sn}._levels", f"{sn}.levels") and isinstance(tgts[0], ast.Name) and iters[1] == tgts[0].id) or (len(iters) == 1 and iters[0] == f"{sn}.all_demes")
+                    elt_ok = elt == f"{d}.best_individual"
+                    filt_ok = all(fl in (f"{d}.best_individual", f"{d}.best_individualisnotNone") for fl in filters)
+                    partial = any(any(k in i for k in (".leaves", ".active_demes", ".active_non_leaves", "levels[", ".root")) for i in iters) or any("is_active" in fl or "_hibernating" in fl or ".level" in fl for fl in filters)
+                    if all_levels and elt_ok and filt_ok:
+                        st = OK
+                    elif partial:
+                        st, why = VIOLATION, f"ranges over {iters} under {filters}, not over every deme of every level"
+                    elif all_levels and not elt_ok and elt.endswith((".best_current_individual", ".current_population")):
+                        st, why = VIOLATION, f"takes `{elt}` of each deme, not its best over the whole history"
+    obs.append(ctx.ob("R04.1", t, t.node, status=st, detail="tree best = max over every deme's best on every level" if st == OK else f"DemeTree.best_individual {why}", construct="tree-best"))
     for ci in ctx.prog.subclasses(base):
         for nm in ("best_individual", "all_individuals"):
             if nm in ci.methods:
